@@ -1,0 +1,68 @@
+//! Verification hooks (compiled only with the `verif-hooks` cargo feature).
+//!
+//! This module is deliberately dumb: it stores a handler of plain function
+//! pointers and a registry of per-shard shared handles. All policy (crash,
+//! pause, delay, trace, scripted clock, fault injection) lives in the external
+//! harness that installs the handler. With the feature off nothing here is
+//! compiled and no call site exists.
+
+use crate::engine::core::InflightSegments;
+use crate::engine::core::memory::passive_buffer_set::PassiveBufferSet;
+use std::path::PathBuf;
+use std::sync::{Arc, Mutex, OnceLock, RwLock};
+
+pub struct Handler {
+    /// A named step boundary was reached (`arg` is a shard id, segment id or log id).
+    pub point: fn(&'static str, u64),
+    /// Clock override in milliseconds since the UNIX epoch (`None` = real clock).
+    pub now_millis: fn() -> Option<u64>,
+    /// "Fail here?" for I/O fault injection.
+    pub fault: fn(&'static str, u64) -> bool,
+}
+
+static HANDLER: OnceLock<Handler> = OnceLock::new();
+
+pub fn install(handler: Handler) -> bool {
+    HANDLER.set(handler).is_ok()
+}
+
+#[inline]
+pub fn point(name: &'static str, arg: u64) {
+    if let Some(h) = HANDLER.get() {
+        (h.point)(name, arg);
+    }
+}
+
+#[inline]
+pub fn now_millis() -> Option<u64> {
+    HANDLER.get().and_then(|h| (h.now_millis)())
+}
+
+#[inline]
+pub fn fault(name: &'static str, arg: u64) -> bool {
+    HANDLER.get().map(|h| (h.fault)(name, arg)).unwrap_or(false)
+}
+
+/// Clones of a shard's own shared state, taken in `Shard::spawn`.
+#[derive(Clone)]
+pub struct ShardHandles {
+    pub id: usize,
+    pub base_dir: PathBuf,
+    pub wal_dir: PathBuf,
+    pub flush_lock: Arc<tokio::sync::Mutex<()>>,
+    pub segment_ids: Arc<RwLock<Vec<String>>>,
+    pub passive_buffers: Arc<PassiveBufferSet>,
+    pub inflight_segments: InflightSegments,
+}
+
+static SHARDS: Mutex<Vec<ShardHandles>> = Mutex::new(Vec::new());
+
+pub fn register_shard(handles: ShardHandles) {
+    let mut guard = SHARDS.lock().unwrap_or_else(|e| e.into_inner());
+    guard.retain(|h| h.id != handles.id);
+    guard.push(handles);
+}
+
+pub fn shards() -> Vec<ShardHandles> {
+    SHARDS.lock().unwrap_or_else(|e| e.into_inner()).clone()
+}
